@@ -116,9 +116,9 @@ def run(ctx, replay=None):
         return
 
     quick = ctx.tier == 'quick'
-    exhaustive = ['q', 'f3'] if quick else ['q', 'f3', 'u4', 'u3q', 'u4m', 'u3p']
-    graph_cfgs = {'q': (26, 200)} if quick else {'q': (26, 600), 'u4': (34, 400), 'u3q': (30, 300)}
-    walks = {'q': 200} if quick else {'q': 200, 'u4': 400, 'u3q': 300}
+    exhaustive = ['q', 'f3'] if quick else ['q', 'f3', 'u4', 'u3q', 'u4m']
+    graph_cfgs = {'q': (26, 200)} if quick else {'q': (26, 600), 'u4': (34, 300), 'u3q': (30, 200)}
+    walks = {'q': 200} if quick else {'q': 200, 'u4': 300, 'u3q': 200}
     all_traces = []
     for name in exhaustive:
         cfgfile = CFGS[name][0]
